@@ -63,7 +63,7 @@ func menuNodeAt(ls *ipld.LinkSystem, depth int, v0 bool, top bool) (datamodel.Li
 		c := verifrt.Bytes(n0)
 		if v0 {
 			// CIDv0 DAGs have dag-pb leaves only
-			d := pbField(nil, 1, 2)
+			d := pbField(nil, 1, pbLeafType(slim))
 			d = pbBytes(d, 2, c)
 			d = append(append(d, 3<<3), pbVarintMin(nil, uint64(len(c)))...)
 			l := storePB(mkPBNode(true, d, nil))
@@ -74,7 +74,7 @@ func menuNodeAt(ls *ipld.LinkSystem, depth int, v0 bool, top bool) (datamodel.Li
 		return storeRaw(ls, c), c, uint64(len(c))
 	case 1: // dag-pb leaf with inline data (protobuf-leaves mode)
 		c := verifrt.Bytes(1 + verifrt.Choose(2))
-		d := pbField(nil, 1, 2)
+		d := pbField(nil, 1, pbLeafType(slim))
 		d = pbBytes(d, 2, c)
 		d = append(append(d, 3<<3), pbVarintMin(nil, uint64(len(c)))...)
 		l := storePB(mkPBNode(true, d, nil))
@@ -124,6 +124,16 @@ func menuNodeAt(ls *ipld.LinkSystem, depth int, v0 bool, top bool) (datamodel.Li
 	l := storePB(mkPBNode(true, d, links))
 	blk, _ := lsGet(ls, l)
 	return l, content, total + uint64(len(blk))
+}
+
+// pbLeafType: the reference importer types its protobuf leaves File (balanced
+// layout) or Raw (trickle layout, helpers.FillNodeLayer); both carry file bytes.
+func pbLeafType(slim bool) uint64 {
+	if !slim && verifrt.Choose(2) == 1 {
+		verifrt.Reach("pb-leaf-typed-raw")
+		return 0
+	}
+	return 2
 }
 
 var menuStore *verifmodel.Store
